@@ -199,6 +199,19 @@ func genC12(t *rapid.T) C12Case {
 	now := genNowRealistic(t, l)
 	c := C12Case{Now: now, ArchiveID: -1}
 	c.Files = genTree(t, l, now, rapid.IntRange(0, 5).Draw(t, "allowMismatch") == 0)
+	if rapid.IntRange(0, 3).Draw(t, "oddNames") == 0 {
+		// names with characters that need escaping in a query string (none is a glob metacharacter)
+		odd := []string{"+", "&", " ", "%41", "=", "+&", "#", ";"}
+		dirSuffix := rapid.SampledFrom(odd).Draw(t, "dirSuffix")
+		fileInfix := rapid.SampledFrom(odd).Draw(t, "fileInfix")
+		renameDir := rapid.Bool().Draw(t, "renameDir")
+		for i := range c.Files {
+			if renameDir {
+				c.Files[i].Dir = c.Files[i].Dir + dirSuffix + "x"
+			}
+			c.Files[i].Name = strings.Replace(c.Files[i].Name, "f", "f"+fileInfix, 1)
+		}
+	}
 	c.Cmd = rapid.SampledFrom([]string{"view", "view", "view-raw", "view-raw", "sum", "sum", "diff", "diff", "copy", "copy", "sum-diff"}).Draw(t, "cmd")
 	pick := c.Files[rapid.IntRange(0, len(c.Files)-1).Draw(t, "pick")]
 	exists := rapid.IntRange(0, 5).Draw(t, "exists") > 0
@@ -264,7 +277,7 @@ func TestC12(t *testing.T) {
 	RunProperty(t, Property[C12Case]{
 		ID: "C12",
 		Rule: "one in-process `whispertool server` over a per-process root; per case a fresh served subtree (1-3 directories x 1-6 files) and a command - view, view-raw, sum, diff and copy with the source side remote, sum-diff, file and item globs through them - run twice at the same controlled clock: with the directory and with the server URL as base, through real HTTP round trips. Existing and missing files / patterns, every window / archive selection (incl. out-of-range ids). Oracle (differential): same result class {nil, diff found, not-exist, other error}, byte-identical text output, and for copy byte-identical destination trees. Non-trivial: the compared output has >=1 data line, or the case is a not-exist case. Distinct = hash of the case.",
-		Assumptions: []string{"error messages of the 'other error' class are not compared", "file names from [a-z0-9/.]"},
+		Assumptions: []string{"error messages of the 'other error' class are not compared", "file and directory names from [a-z0-9/.] plus, in a quarter of the cases, one of + & space %41 = # ; (no glob metacharacters, no dots in directory names)"},
 		Gen:         genC12,
 		Run:         runC12,
 	})
